@@ -5,6 +5,7 @@ CONSTANTS
   IsSync <- Sync3
   MaxOps = 5
   OpKinds <- AllOps
+  FocusMode = FALSE
   WBad = "-"
   WEnd = "-"
 INVARIANT Emit
